@@ -371,9 +371,9 @@ def gen_text(rnd, cols, extra=(), p_hole=0.5):
 def gen_step(rnd, cols, line_hint=0, params=()):
     st = {"keyword": rnd.choice(KEYWORDS), "name": gen_text(rnd, cols, params), "line": 0}
     r = rnd.random()
-    if r < 0.2:
+    if r < 0.2 or r > 0.92:             # (r > 0.92: a step may carry a doc-string AND a table)
         st["doc"] = "\n".join(gen_text(rnd, cols) for _ in range(rnd.randint(1, 3)))
-    elif r < 0.4:
+    if 0.2 <= r < 0.4 or r > 0.92:
         w = rnd.randint(1, 3)
         st["table"] = [[gen_text(rnd, cols, p_hole=0.3).replace("|", "/") for _ in range(w)],
                        [[gen_text(rnd, cols, p_hole=0.6) if rnd.random() < 0.8 else "" for _ in range(w)] for _ in range(rnd.randint(0, 2))]]
